@@ -226,6 +226,23 @@ static int val_of(std::reference_wrapper<const int> r)
     return r.get();
 }
 
+// the element behind what a loop hands out: the thing itself, or what a reference_wrapper refers to
+template <typename T>
+static T& unwrapped(T& x)
+{
+    return x;
+}
+template <typename T>
+static T& unwrapped(std::reference_wrapper<T>& x)
+{
+    return x.get();
+}
+template <typename T>
+static T& unwrapped(const std::reference_wrapper<T>& x)
+{
+    return x.get();
+}
+
 // generic driver for one container object that is kept in `c`
 template <typename C>
 static std::string run_generic(const std::string& ad, const std::string& cat, bool write, C& c,
@@ -408,6 +425,8 @@ static std::string run_c_array(const std::string& ad, const std::string& cat, bo
     for (std::size_t i = 0; i < N; i++)
         a[i] = v[i];
     Out o;
+    // the visited values are the array's own elements (whether they are handed out directly or wrapped)
+    std::vector<const void*> seen, own;
     if (ad == "e")
     {
         if (cat == "lv")
@@ -415,6 +434,7 @@ static std::string run_c_array(const std::string& ad, const std::string& cat, bo
             for (auto p : nitro::lang::enumerate(a))
             {
                 o.add(p.index(), p.value(), true);
+                seen.push_back(&unwrapped(p.value()));
                 if (write)
                     p.value() += 100;
             }
@@ -423,8 +443,13 @@ static std::string run_c_array(const std::string& ad, const std::string& cat, bo
         {
             const int(&ca)[N] = a;
             for (auto p : nitro::lang::enumerate(ca))
+            {
                 o.add(p.index(), p.value(), true);
+                seen.push_back(&unwrapped(p.value()));
+            }
         }
+        for (std::size_t i = 0; i < N; i++)
+            own.push_back(&a[i]);
     }
     else
     {
@@ -432,22 +457,28 @@ static std::string run_c_array(const std::string& ad, const std::string& cat, bo
         {
             for (auto& x : nitro::lang::reverse(a))
             {
-                o.add(0, x.get(), false);
+                o.add(0, val_of(x), false);
+                seen.push_back(&unwrapped(x));
                 if (write)
-                    x.get() += 100;
+                    unwrapped(x) += 100;
             }
         }
         else
         {
             const int(&ca)[N] = a;
             for (auto& x : nitro::lang::reverse(ca))
-                o.add(0, x.get(), false);
+            {
+                o.add(0, val_of(x), false);
+                seen.push_back(&unwrapped(x));
+            }
         }
+        for (std::size_t i = N; i > 0; i--)
+            own.push_back(&a[i - 1]);
     }
     std::string aft;
     for (std::size_t i = 0; i < N; i++)
         aft += (i ? "," : "") + std::to_string(a[i]);
-    return fin(o, aft);
+    return fin(o, aft) + (seen == own ? "" : " NOALIAS(the loop did not visit the array's own elements)");
 }
 
 static std::string run_il(const std::string& ad, const std::vector<int>& v, const std::string& orig)
